@@ -1,8 +1,162 @@
+(* C11 — metadata values are type-normalised and survive storage unchanged.
+   Property theorems only; each is closed by [exact] of a lemma proved in
+   Proofs/C11.v or Proofs/C11_table.v and followed by Print Assumptions.
+   [table], [feats], [meta_sections] and [probes] are generated from the tree
+   under test (Gen/MetaTable.v). *)
 From Coq Require Import ZArith List Bool.
-From Verif Require Import Model.C11 Proofs.C11.
+From Verif Require Import Model.C11 Proofs.C11 Gen.MetaTable Proofs.C11_table.
 Import ListNotations.
 Open Scope Z_scope.
 
-Theorem C11_lower_idem : forall s, lower (lower s) = lower s.
-Proof. exact lower_idem. Qed.
-Print Assumptions C11_lower_idem.
+(* Every converter function of the tables (and "no converter") is idempotent
+   on every value: converting a converted value changes nothing. *)
+Theorem C11_converter_idempotent :
+  forall (c : conv) (v w : value), apply c v = Ok w -> apply c w = Ok w.
+Proof. exact apply_idempotent. Qed.
+Print Assumptions C11_converter_idempotent.
+
+(* For every section and key (table keys, pattern keys, user keys), every
+   value and every dictionary content: if an assignment stores something
+   without a warning, assigning the stored value again leaves the dictionary
+   as it is. *)
+Theorem C11_assignment_idempotent :
+  forall (sec key : str) (v : value) (d d' : dict),
+    setitem table feats sec key v d = Done d' [] ->
+    exists w, dget d' (lower key) = Some w /\
+              setitem table feats sec key w d' = Done d' [].
+Proof. exact table_assignment_idempotent. Qed.
+Print Assumptions C11_assignment_idempotent.
+
+(* Keys are case-insensitive: two spellings with the same lower-case form
+   behave identically (result, warnings, errors). *)
+Theorem C11_case_insensitive :
+  forall (sec key key' : str) (v : value) (d : dict),
+    lower key = lower key' ->
+    setitem table feats sec key v d = setitem table feats sec key' v d.
+Proof. exact (setitem_case_insensitive table feats). Qed.
+Print Assumptions C11_case_insensitive.
+
+(* Unknown keys, empty strings (also as bytes) and None are rejected: at
+   least one warning, the dictionary is unchanged, no exception. *)
+Theorem C11_rejects_unknown_empty_none :
+  forall (sec key : str) (v v1 : value) (d : dict),
+    decode v = Ok v1 ->
+    verify table feats sec (lower key) <> None \/ v1 = VS (SStr []) \/
+    v1 = VS SNone ->
+    exists w ws, setitem table feats sec key v d = Done d (w :: ws).
+Proof. exact (setitem_rejects table feats). Qed.
+Print Assumptions C11_rejects_unknown_empty_none.
+
+(* The assignment implements the specification [spec_store]: nothing for a
+   rejected entry, otherwise the value converted exactly once, stored under
+   the lower-case key; converter errors propagate. *)
+Theorem C11_assignment_meets_spec :
+  forall (sec key : str) (v : value) (d : dict),
+    match spec_store table feats sec key v with
+    | Ok (Some w) =>
+        setitem table feats sec key v d = Done (dset d (lower key) w) []
+    | Ok None => exists w ws, setitem table feats sec key v d = Done d (w :: ws)
+    | Raise e => setitem table feats sec key v d = Exc e
+    | Unmod => setitem table feats sec key v d = OUnmod
+    end.
+Proof. exact (setitem_meets_spec table feats). Qed.
+Print Assumptions C11_assignment_meets_spec.
+
+(* Routes: ConfigurationDict.update / Configuration.update / the constructor
+   are item assignments in sequence ... *)
+Theorem C11_update_is_sequential_assignment :
+  forall (sec : str) (l1 l2 : list (str * value)) (d : dict),
+    update table feats sec (l1 ++ l2) d =
+    match update table feats sec l1 d with
+    | Done d1 ws1 =>
+        match update table feats sec l2 d1 with
+        | Done d2 ws2 => Done d2 (ws1 ++ ws2)
+        | o => o
+        end
+    | o => o
+    end.
+Proof. exact (update_app table feats). Qed.
+Print Assumptions C11_update_is_sequential_assignment.
+
+(* ... and an entry "key = text" of a configuration file (converted once by
+   load_from_file and once more by Configuration.update) gives the same
+   result as assigning the stripped text directly, for every known key. *)
+Theorem C11_file_route_agrees :
+  forall (sec key text : str) (d : dict),
+    key_exists table feats sec (lower (strip key)) = true ->
+    file_text text <> [] ->
+    file_route table feats sec key text d
+    = setitem table feats sec (lower (strip key))
+              (VS (SStr (file_text text))) d.
+Proof. exact (file_route_agrees table feats). Qed.
+Print Assumptions C11_file_route_agrees.
+
+(* Every key of the generated table is found under its own lower-case name
+   with the converter the table gives. *)
+Theorem C11_table_keys_resolve :
+  forall r, In r table ->
+    key_exists table feats (r_sec r) (r_key r) = true /\
+    func_of table (r_sec r) (r_key r) = r_conv r /\
+    lower (r_key r) = r_key r.
+Proof. exact table_key_conv. Qed.
+Print Assumptions C11_table_keys_resolve.
+
+(* For every key of the generated table the converted value has one of the
+   types documented for the key (meta_const.config_types). *)
+Theorem C11_documented_type :
+  forall r, In r table ->
+    forall v w, not_bytes v = true -> apply (r_conv r) v = Ok w ->
+                has_some_type (r_types r) w = true.
+Proof. exact table_type_ok. Qed.
+Print Assumptions C11_documented_type.
+
+(* HDF5 attribute round trip, for every table key of a section that is
+   written to .rtdc files: what the attribute layer returns for a converted
+   value converts back to exactly that value. *)
+Theorem C11_attr_roundtrip :
+  forall r, In r table -> r_meta r = true ->
+    forall v w x, apply (r_conv r) v = Ok w -> h5 w = Ok x ->
+                  apply (r_conv r) x = Ok w.
+Proof. exact table_attr_roundtrip. Qed.
+Print Assumptions C11_attr_roundtrip.
+
+(* The same for the pattern keys (soft limit: fbool, polygon points:
+   f2dfloatarray): every converter except fintlist (analysis section only). *)
+Theorem C11_attr_roundtrip_converters :
+  forall c v w x, roundtrippable c = true ->
+    apply c v = Ok w -> h5 w = Ok x -> apply c x = Ok w.
+Proof. exact attr_roundtrip. Qed.
+Print Assumptions C11_attr_roundtrip_converters.
+
+(* Keys without a converter (user section, min/max ranges): the attribute
+   layer changes the Python type into a numpy type, the value compares
+   equal. *)
+Theorem C11_attr_preserves_unconverted_values :
+  forall w x, wf_arr0 w = true -> h5 w = Ok x -> nf x = nf w.
+Proof. exact h5_preserves_value. Qed.
+Print Assumptions C11_attr_preserves_unconverted_values.
+
+(* Whole route: RTDCWriter.store_metadata of an entry of a metadata section,
+   then re-opening the file (parse_config), stores exactly what the
+   assignment stores. *)
+Theorem C11_file_storage_agrees_with_assignment :
+  forall (sec key : str) (v v1 w x : value) (d : dict),
+    lower key = key ->
+    str_eqb sec s_user = false ->
+    mem_str sec meta_sections = true ->
+    key_exists table feats sec key = true ->
+    roundtrippable (func_of table sec key) = true ->
+    decode v = Ok v1 -> clean v1 = true ->
+    apply (func_of table sec key) v1 = Ok w -> h5 w = Ok x ->
+    h5_route table feats meta_sections sec key v d
+    = setitem table feats sec key v d
+    /\ setitem table feats sec key v d = Done (dset d key w) [].
+Proof. exact (h5_route_agrees table feats meta_sections). Qed.
+Print Assumptions C11_file_storage_agrees_with_assignment.
+
+(* The model's key validation / converter lookup / documented types agree
+   with the answers of the real meta_logic functions on the probe keys
+   recorded by the translator (bridge obligation). *)
+Theorem C11_probes_agree : forallb probe_ok probes = true.
+Proof. exact probes_agree. Qed.
+Print Assumptions C11_probes_agree.
